@@ -13,7 +13,7 @@ OVERLAYS = [
     {'name': 'ownership tested on the fetch window', 'kind': 'break', 'rules': ['C08-R1'],
      'edits': [(TAGGING, SKIP, "                if cut_site_contig!=contig or cut_site_pos<fetch_start or cut_site_pos>=fetch_end: # End is exclusive\n")]},
     {'name': 'stop at the bin end instead of the fetch end', 'kind': 'break', 'rules': ['C08-R2'],
-     'edits': [(TAGGING, "                if cut_site_pos>=fetch_end:\n                    break\n", "                if cut_site_pos>=end:\n                    break\n")]},
+     'edits': [(TAGGING, "                if cut_site_pos>=fetch_end:\n                    continue\n", "                if cut_site_pos>=end:\n                    break\n")]},
     {'name': 'reads fetched from the bin only', 'kind': 'break', 'rules': ['C08-R2'],
      'edits': [(TAGGING, "contig=contig, start=fetch_start, end=fetch_end, # Region", "contig=contig, start=start, end=end, # Region")]},
     {'name': 'fetch_end key renamed in the producer only', 'kind': 'break', 'rules': ['C08-R3'],
